@@ -18,6 +18,7 @@ import (
 	"fmt"
 	"os"
 	"os/exec"
+	"regexp"
 	"sort"
 	"strings"
 
@@ -198,8 +199,101 @@ func (n c06norm) text() string {
 	return b.String()
 }
 
+// c06verdict: the in-process part of c06case (k runs, for histories also the fresh controller), no emission
+func c06verdict(kind string, toks []string, k int, seed uint64) (string, c06norm, c06norm) {
+	base := c06run(kind, toks, nil)
+	if base.err != "" {
+		return "error:" + base.err, base, base
+	}
+	r := gen.New(seed)
+	for i := 1; i < k; i++ {
+		other := c06run(kind, toks, r.Fork())
+		if d := c06diff(base, other); d != "" {
+			return "diff:" + d, base, other
+		}
+	}
+	if kind == "hist" {
+		var flat []string
+		for _, t := range toks {
+			if t != "sync" {
+				flat = append(flat, t)
+			}
+		}
+		fresh := c06run("world", flat, r.Fork())
+		if fresh.err != "" {
+			return "diff:fresh-error", base, fresh
+		}
+		if d := c06diff(base, fresh); d != "" {
+			return "diff:fresh-" + d, base, fresh
+		}
+	}
+	return "same", base, base
+}
+
+// c06onlySchemeSticky: the two normal forms differ only in the `{ssl …}` options of auth backend servers (and in the
+// names derived from them)
+var c06sslOptRe = regexp.MustCompile(`\{ssl sni str\([^)]*\) verify none\}`)
+
+func c06onlySchemeSticky(a, b c06norm) bool {
+	strip := func(n c06norm) string { return c06sslOptRe.ReplaceAllString(n.text(), "") }
+	return strip(a) == strip(b)
+}
+
+// debugging aid: HV_C06_MIN="<kind> <ops...>" shrinks a failing case (same class of difference) and prints the
+// minimal case with the two normal forms side by side (only the differing lines)
+func c06min(c *ctx) bool {
+	spec := os.Getenv("HV_C06_MIN")
+	if spec == "" {
+		return false
+	}
+	f := strings.Fields(spec)
+	kind, toks := f[0], f[1:]
+	class := func(v string) string {
+		if i := strings.LastIndex(v, ":"); i > 0 {
+			return v[:i]
+		}
+		return v
+	}
+	v0, _, _ := c06verdict(kind, toks, 12, 7)
+	fmt.Fprintln(c.out, "# verdict:", v0)
+	if !strings.HasPrefix(v0, "diff:") {
+		return true
+	}
+	min := world.Shrink(toks, func(o []string) bool {
+		v, _, _ := c06verdict(kind, o, 12, 7)
+		return strings.HasPrefix(v, "diff:") && class(v) == class(v0)
+	}, 400)
+	v, a, b := c06verdict(kind, min, 16, 7)
+	fmt.Fprintln(c.out, "# minimal:", kind, strings.Join(min, " "))
+	fmt.Fprintln(c.out, "# verdict:", v)
+	al, bl := strings.Split(a.text(), "\n"), strings.Split(b.text(), "\n")
+	in := map[string]bool{}
+	for _, l := range bl {
+		in[l] = true
+	}
+	for _, l := range al {
+		if !in[l] {
+			fmt.Fprintln(c.out, "A|", l)
+		}
+		delete(in, l)
+	}
+	ina := map[string]bool{}
+	for _, l := range al {
+		ina[l] = true
+	}
+	for _, l := range bl {
+		if !ina[l] {
+			fmt.Fprintln(c.out, "B|", l)
+		}
+	}
+	return true
+}
+
 // child process mode: print the normal form of one baseline run (fresh process = fresh map seeds)
 func c06child(c *ctx) bool {
+	if c06min(c) {
+		return true
+	}
 	spec := os.Getenv("HV_C06_CHILD")
 	if spec == "" {
 		return false
@@ -216,8 +310,12 @@ func c06child(c *ctx) bool {
 
 func c06case(c *ctx, kind string, toks []string, k, procs int) {
 	args := kind + " " + strings.Join(toks, " ")
-	base := c06run(kind, toks, nil)
-	if base.err != "" {
+	seed := uint64(0)
+	for _, ch := range args {
+		seed = seed*131 + uint64(ch)
+	}
+	verdict, base, other := c06verdict(kind, toks, k, seed^c.seed)
+	if strings.HasPrefix(verdict, "error:") {
 		if base.err == "PANIC" {
 			c.emit("C06", args, "PANIC -")
 		} else {
@@ -226,32 +324,11 @@ func c06case(c *ctx, kind string, toks []string, k, procs int) {
 		c.stat("run_error", 1)
 		return
 	}
-	verdict := "same"
-	seed := uint64(0)
-	for _, ch := range args {
-		seed = seed*131 + uint64(ch)
-	}
-	r := gen.New(seed ^ c.seed)
-	for i := 1; i < k && verdict == "same"; i++ {
-		other := c06run(kind, toks, r.Fork())
-		if d := c06diff(base, other); d != "" {
-			verdict = "diff:" + d
-		}
-	}
-	if kind == "hist" && verdict == "same" {
-		// a function of the cluster state alone: the history ends like a controller started on its final state
-		var flat []string
-		for _, t := range toks {
-			if t != "sync" {
-				flat = append(flat, t)
-			}
-		}
-		fresh := c06run("world", flat, r.Fork())
-		if fresh.err != "" {
-			verdict = "diff:fresh-error:" + sanitize(fresh.err)
-		} else if d := c06diff(base, fresh); d != "" {
-			verdict = "diff:fresh-" + d
-		}
+	if strings.HasPrefix(verdict, "diff:fresh-servers:_auth_backend") && c06onlySchemeSticky(base, other) {
+		// known finding (C01 and C06): an auth backend is shared by every auth-url naming the same ip:port, whatever the
+		// scheme; `ssl` is only ever raised on it and the object outlives its users, so a history that removes the last
+		// https:// user leaves `ssl` on the server a fresh controller writes without it
+		verdict = "diff:fresh-authscheme:sticky-ssl-on-shared-auth-backend"
 	}
 	for i := 0; i < procs && verdict == "same"; i++ {
 		cmd := exec.Command("/proc/self/exe", "C06")
@@ -307,7 +384,7 @@ func runC06(c *ctx) {
 		n, nh, k = 1000, 600, 8
 	}
 	for i := 0; i < n; i++ {
-		g := &syncGen{r: r.Fork(), paths: syncPaths, tlsProb: [2]int{1, 2}, annots: true, xns: i%5 == 0}
+		g := &syncGen{r: r.Fork(), paths: syncPaths, tlsProb: [2]int{1, 2}, annots: true, xns: i%5 == 0, auth: i%4 == 1}
 		procs := 0
 		if i%10 == 0 {
 			procs = 2
@@ -315,7 +392,7 @@ func runC06(c *ctx) {
 		c06case(c, "world", g.world(6), k, procs)
 	}
 	for i := 0; i < nh; i++ {
-		g := &syncGen{r: r.Fork(), paths: syncPaths, tlsProb: [2]int{1, 2}, annots: true}
+		g := &syncGen{r: r.Fork(), paths: syncPaths, tlsProb: [2]int{1, 2}, annots: true, auth: i%4 == 1}
 		ops := g.world(3)
 		var opts, rest []string
 		for _, o := range ops {
@@ -384,6 +461,12 @@ func runC06(c *ctx) {
 }
 
 var c06corpus = []string{
+	// KNOWN FINDING order-dependent-config-fresh-authscheme: http:// and https:// auth-url naming one ip:port share one auth
+	// backend on which `ssl` is only raised; the https user goes away, `ssl` stays (a fresh controller writes none)
+	"hist cm~external-has-lua=true svc+e/web!http:80:8080!- svc+e/app!http:80:8080!- ing+e/i2@1!haproxy,-!auth-url=http://10.9.9.8:8000/auth!b.local>/:_:web:80!-!- ing+e/i3@2!haproxy,-!auth-url=https://10.9.9.8:8000/auth!a.local>/:_:app:80!-!- sync ing-e/i3 sync",
+	// one auth target (ip:port) reached with https by one ingress and with http by another: the shared auth backend
+	// must look the same whoever is processed first (seed C06f)
+	"world cm~external-has-lua=true svc+d/app!http:80:8080!- ep~d/app!10.0.1.1:r:app-1 svc+d/api!http:80:8080!- ep~d/api!10.0.2.1:r:api-1 svc+d/web!http:80:8080!- ep~d/web!10.0.3.1:r:web-1 ing+d/i1@1!haproxy,-!auth-url=https://10.9.9.9:8000/auth!a.local>/:Prefix:app:80!-!- ing+d/i2@2!haproxy,-!auth-url=http://10.9.9.9:8000/auth!b.local>/:Prefix:api:80!-!- ing+d/i3@3!haproxy,-!auth-url=http://10.9.9.9:8000/auth!c.local>/:Prefix:web:80!-!-",
 	// two (and a dozen) hosts claim the same server-alias: who answers the alias domain must not depend on the
 	// iteration order of the hosts map (seed C06e)
 	"world svc+d/app!http:80:8080!- ep~d/app!10.0.1.1:r:app-1 svc+d/api!http:80:8080!- ep~d/api!10.0.2.1:r:api-1 ing+d/i1@1!haproxy,-!server-alias=www.local!a.local>/:Prefix:app:80!-!- ing+d/i2@2!haproxy,-!server-alias=www.local!b.local>/:Prefix:api:80!-!-",
